@@ -226,6 +226,29 @@ fn run_inner(p: &VqParams, sc: &str) -> VqOutcome {
     let bases: [u16; 6] = [0, 32768, 0, 16384, 32768, 49152];
     let mut next_base = 0usize;
     let mut i = 0usize;
+    if p.mode == "random" && p.seed % 4 == 1 {
+        // every fourth random history starts just below the wrap of the 16-bit ring indices, so
+        // that out-of-order completion, partial polls and refused calls also happen across it
+        let target: u16 = 0u16.wrapping_sub(3 + (p.seed % 23) as u16);
+        with_world(|w| w.muted = true);
+        let mut b = [0u8; 4];
+        loop {
+            let cur = with_world(|w| w.dev_avail_idx(q));
+            if cur == target { break; }
+            let tok = unsafe { queue.add(&[], &mut [&mut b[..]]) }.expect("fast-forward add");
+            sched.borrow_mut().drain();
+            unsafe { queue.pop_used(tok, &[], &mut [&mut b[..]]) }.expect("fast-forward pop");
+        }
+        let _ = queue.should_notify();
+        with_world(|w| {
+            w.muted = false;
+            let idx = w.dev_avail_idx(q);
+            let ue = w.dev_used_event(q);
+            let af = w.dev_avail_flags(q);
+            let (uf, ae) = w.dev_used_fields(q);
+            w.qev(q, json!({"e":"Skip","idx":idx,"used_event":ue,"avail_flags":af,"used_flags":uf,"avail_event":ae,"last_checked":idx}));
+        });
+    }
     while i < p.ops {
         if notify_mode && i % 250 == 0 && next_base < bases.len() {
             // quiesce (logged), then fast-forward the real queue without logging
@@ -388,7 +411,8 @@ fn run_inner(p: &VqParams, sc: &str) -> VqOutcome {
         }
         if wrap || roll < 70 {
             // ---- pop
-            if wrap || rng.gen_bool(0.5) {
+            // (in the long wrap runs the device is mostly, not always, done with everything)
+            if (wrap && rng.gen_bool(0.85)) || (!wrap && rng.gen_bool(0.5)) {
                 sched.borrow_mut().drain();
             } else {
                 sched.borrow_mut().step();
